@@ -73,6 +73,14 @@ class Check(CheckBase):
                 # downloads are slow): whatever the command does about it, the transfer bound holds
                 'garble': kinds[i % len(kinds)] == 'fail-restore' and (i // len(kinds)) % 3 == 0,
             })
+        # slot contention: many loader threads and many chunks (sixteen contenders for the last free slots)
+        for i in range(12 if quick else 300):
+            r = random.Random(f'C09/{self.seed}/c/{i}')
+            cases.append({
+                'kind': 'roundtrip', 'seed': r.randrange(1 << 30), 'N': 16, 'flavour': 'sync' if i % 3 else 'async',
+                'shape': 'few-large', 'p': [0.06, 0.15][i % 2], 'probe': False, 'continue': False, 'garble': False,
+                'settings': gen.gen_settings(r, chunker=r.choice([(8, 64), (4, 64), (16, 257)])),
+            })
         # sync-stress: tiny trees, long delays at synchronisation calls and a slow producer (slow disk), so that
         # a polling consumer is preempted between two of its checks for a time comparable to its poll period
         for i in range(96 if quick else 2400):
